@@ -34,7 +34,13 @@ impl EventSubscriber {
 
     pub fn subscribe(self, c: CoroutineImpl) {
         let resource = unsafe { &mut *self.resource };
+        #[cfg(may_verif)]
+        let vid = co_verif_id(&c);
+        #[cfg(may_verif)]
+        let gen = crate::verif::note("co.switched", vid, 0);
         resource.subscribe(c);
+        #[cfg(may_verif)]
+        crate::verif::note("co.subscribed", vid, gen);
     }
 }
 
@@ -61,6 +67,8 @@ impl Done {
         // destroy the local storage
         let local = unsafe { Box::from_raw(get_co_local(&co)) };
         let name = local.get_co().name();
+        #[cfg(may_verif)]
+        crate::verif::note("co.done", local.get_co().verif_id(), 0);
 
         // recycle the coroutine
         let (size, used) = co.stack_usage();
@@ -148,6 +156,12 @@ impl Coroutine {
     /// Gets the coroutine name.
     pub fn name(&self) -> Option<&str> {
         self.inner.name.as_deref()
+    }
+
+    /// identity used by the verification hooks
+    #[cfg(may_verif)]
+    pub fn verif_id(&self) -> usize {
+        Arc::as_ptr(&self.inner) as usize
     }
 
     /// Get the internal cancel
@@ -478,6 +492,13 @@ pub(crate) fn current_cancel_data() -> &'static Cancel {
     }
 }
 
+#[cfg(may_verif)]
+#[inline]
+pub(crate) fn co_verif_id(co: &CoroutineImpl) -> usize {
+    let local = unsafe { &*get_co_local(co) };
+    local.get_co().verif_id()
+}
+
 #[inline]
 pub(crate) fn co_cancel_data(co: &CoroutineImpl) -> &'static Cancel {
     let local = unsafe { &*get_co_local(co) };
@@ -519,6 +540,8 @@ pub fn park_timeout(dur: Duration) {
 /// run the coroutine
 #[inline]
 pub(crate) fn run_coroutine(mut co: CoroutineImpl) {
+    #[cfg(may_verif)]
+    crate::verif::note("co.resume", co_verif_id(&co), 0);
     match co.resume() {
         Some(ev) => ev.subscribe(co),
         None => {
